@@ -15,7 +15,7 @@ impl Check for C05 {
          1 MiB page cache = evictions, sessions layered on uncommitted overlay chains) x query keys (present keys; absent keys obtained by flipping \
          a random bit of a present key with kept/zeroed/randomised tail; random keys; all-zero/all-one). Oracle: Session::prove is Ok, the proof verifies \
          against session.prev_root == reference root both by nomt's verifier and by an independent hash chain, confirm_value/confirm_nonexistence give exactly \
-         the model's answer (and false for a wrong value hash), and siblings/terminal equal the reference trie lookup. Non-trivial case = >= 1 proof with >= 7 \
+         the model's answer (and false for a wrong value hash), and siblings/terminal equal the reference trie lookup; the path proofs handed out for distinct terminals are also aggregated into a multi-proof that must verify and answer alike (C07 on store-produced proofs). A twelfth of the cases additionally crash their last operation at every I/O event boundary and request proofs from every recovered store. Non-trivial case = >= 1 proof with >= 7 \
          siblings (path leaves the root page); distinct = distinct serialized case".into()
     }
     fn cases(tier: Tier) -> u32 {
@@ -43,6 +43,26 @@ impl Check for C05 {
             ..Default::default()
         };
         let mut info = dispatch(case, &obs, &ctx.scratch, 4 << 20)?;
+        // committed states reached THROUGH A CRASH RECOVERY are committed states too: a twelfth of the cases crash
+        // their last operation at every I/O event boundary (C03 engine); proofs for present and absent keys are
+        // requested from every recovered store and judged against the state it shows.
+        if case.salt % 12 == 0 && case.steps.len() >= 2 && info.discarded.is_none() {
+            let fc = crate::crash::FaultCase { hist: case.clone(), choice_seed: case.salt };
+            let fp = crate::crash::FaultParams {
+                mode: crate::crash::Mode::Crash,
+                max_images: ctx.tier.pick(24, 300),
+                nested: 1,
+                max_nested_images: 8,
+                randoms: 1,
+            };
+            let r = match case.cfg.hasher {
+                crate::reftrie::HasherKind::Blake3 => crate::crash::run_fault_case::<crate::driver::B3>(&fc, &fp, &ctx.scratch),
+                crate::reftrie::HasherKind::Sha2 => crate::crash::run_fault_case::<crate::driver::S2>(&fc, &fp, &ctx.scratch),
+            };
+            let ci = r.map_err(|v| Violation { step: v.step, msg: format!("[state reached through crash recovery] {}", v.msg) })?;
+            info.add("recovered_states_proved", ci.labels.get("images_verified").copied().unwrap_or(0));
+            info.bump("cases_with_crash_recovery");
+        }
         let l = |k: &str| info.labels.get(k).copied().unwrap_or(0);
         info.nontrivial = info.discarded.is_none() && l("proofs_beyond_root_page") >= 1;
         Ok(info)
